@@ -52,10 +52,11 @@ class Obj:
 
 
 class Raised(Exception):
-    def __init__(self, kind, detail=''):
+    def __init__(self, kind, detail='', payload=None):
         self.kind = kind
         self.detail = detail
         self.node = None
+        self.payload = payload
 
 
 class _Break(Exception):
@@ -366,8 +367,15 @@ class FD:
     def e_Call(self, e, env):
         from .astutil import dotted
         name = dotted(e.func)
+        star_kwargs = {}
         if e.keywords and any(k.arg is None for k in e.keywords):
-            raise Inconclusive('fdeval: **kwargs call')
+            for k in e.keywords:
+                if k.arg is None:
+                    v = self.eval(k.value, env)
+                    if not isinstance(v, dict):
+                        raise Inconclusive('fdeval: **kwargs of a non-concrete value')
+                    star_kwargs.update(v)
+            e = ast.Call(func=e.func, args=e.args, keywords=[k for k in e.keywords if k.arg is not None])
         if any(isinstance(a, ast.Starred) for a in e.args):
             flat = []
             for a in e.args:
@@ -383,10 +391,12 @@ class FD:
         if name in self.calls:
             args = [self.eval(a, env) for a in e.args]
             kwargs = {k.arg: self.eval(k.value, env) for k in e.keywords}
+            kwargs.update(star_kwargs)
             return self.calls[name](*args, **kwargs)
         if name in self.functions:
             args = [self.eval(a, env) for a in e.args]
             kwargs = {k.arg: self.eval(k.value, env) for k in e.keywords}
+            kwargs.update(star_kwargs)
             return self.call_function(self.functions[name], args, kwargs)
         if isinstance(e.func, ast.Name) and e.func.id in env and callable(env[e.func.id]):
             args = [self.eval(a, env) for a in e.args]
@@ -394,10 +404,16 @@ class FD:
         if isinstance(e.func, ast.Attribute):
             recv = self.eval(e.func.value, env)
             args = [self.eval(a, env) for a in e.args]
-            return self.call_method(recv, e.func.attr, args)
+            kwargs = {k.arg: self.eval(k.value, env) for k in e.keywords}
+            kwargs.update(star_kwargs)
+            return self.call_method(recv, e.func.attr, args, kwargs)
         if name in _BUILTINS:
             args = [self.eval(a, env) for a in e.args]
             return _BUILTINS[name](*args)
+        if name is None:
+            f = self.eval(e.func, env)
+            if callable(f):
+                return f(*[self.eval(a, env) for a in e.args])
         raise Inconclusive('fdeval: call of %s' % (name or ast.unparse(e.func)))
 
     def call_function(self, fn, args, kwargs=None, bound_self=None):
@@ -421,12 +437,13 @@ class FD:
         r = self.run(fn.body, env)
         return None if r is NO_RETURN else r
 
-    def call_method(self, recv, attr, args):
+    def call_method(self, recv, attr, args, kwargs=None):
+        kwargs = kwargs or {}
         if attr in self.methods:
-            return self.methods[attr](recv, *args)
+            return self.methods[attr](recv, *args, **kwargs)
         if isinstance(recv, Obj):
             if ('method:' + attr) in recv.attrs:
-                return recv.attrs['method:' + attr](*args)
+                return recv.attrs['method:' + attr](*args, **kwargs)
             if recv.attrs.get('__closed__'):
                 raise Raised('AttributeError', '%r object has no attribute %r' % (recv._name, attr))
         if recv is UNKNOWN:
@@ -564,14 +581,82 @@ class FD:
             raise _Break()
         if isinstance(st, ast.Continue):
             raise _Continue()
+        if isinstance(st, ast.Try):
+            self.try_stmt(st, env)
+            return
         if isinstance(st, ast.Raise):
             from .astutil import dotted
             kind = 'Exception'
-            if st.exc is not None:
-                target = st.exc.func if isinstance(st.exc, ast.Call) else st.exc
-                kind = dotted(target) or 'Exception'
-            raise Raised(kind)
+            if st.exc is None:
+                cur = env.get('__inflight__')
+                if cur is not None:
+                    raise cur
+                raise Raised('RuntimeError', 'No active exception to reraise')
+            if isinstance(st.exc, ast.Call):
+                kind = dotted(st.exc.func) or 'Exception'
+                if kind in self.calls or kind in self.functions:
+                    v = self.eval(st.exc, env)
+                    if isinstance(v, Obj) and 'exc_kind' in v.attrs:
+                        raise Raised(v.attrs['exc_kind'], payload=v)
+                raise Raised(kind)
+            v = None
+            try:
+                v = self.eval(st.exc, env)
+            except Inconclusive:
+                pass
+            if isinstance(v, Obj) and 'exc_kind' in v.attrs:
+                raise Raised(v.attrs['exc_kind'], payload=v)
+            if v is None or v is UNKNOWN:
+                raise Raised('TypeError', 'exceptions must derive from BaseException')
+            raise Raised(dotted(st.exc) or 'Exception')
         raise Inconclusive('fdeval: unsupported statement %s' % type(st).__name__)
+
+    NON_EXCEPTION_KINDS = ('KeyboardInterrupt', 'SystemExit', 'GeneratorExit', 'BaseException')
+
+    def handler_matches(self, h, raised):
+        from .astutil import dotted
+        if h.type is None:
+            return True
+        names = [dotted(x) for x in (h.type.elts if isinstance(h.type, ast.Tuple) else [h.type])]
+        for n in names:
+            if n == 'BaseException':
+                return True
+            if n == 'Exception' and raised.kind not in self.NON_EXCEPTION_KINDS:
+                return True
+            if n == raised.kind or (n and n.split('.')[-1] == raised.kind.split('.')[-1]):
+                return True
+            import builtins
+            a, b = getattr(builtins, n or '', None), getattr(builtins, raised.kind, None)
+            if isinstance(a, type) and isinstance(b, type) and issubclass(b, a):
+                return True
+        return False
+
+    def try_stmt(self, st, env):
+        try:
+            try:
+                self.block(st.body, env)
+            except Raised as r:
+                for h in st.handlers:
+                    if self.handler_matches(h, r):
+                        if h.name:
+                            exc = r.payload if r.payload is not None else Obj('exception', exc_kind=r.kind,
+                                                                             detail=r.detail)
+                            r.payload = exc
+                            env[h.name] = exc
+                        saved = env.get('__inflight__')
+                        env['__inflight__'] = r
+                        try:
+                            self.block(h.body, env)
+                        finally:
+                            env['__inflight__'] = saved
+                        break
+                else:
+                    raise
+            else:
+                self.block(st.orelse, env)
+        finally:
+            if st.finalbody:
+                self.block(st.finalbody, env)
 
     def assign(self, t, v, env):
         from .astutil import dotted
